@@ -414,8 +414,11 @@ def setup(ctx):
     # history: registrations the library refuses (taken names, in either 2.1 category) come before the content is judged
     from ..gen import custom as gcustom
     ctx.count("refused_registrations_before_the_workload", gcustom.refused_registrations())
+    ctx.count("refused_registrations_that_left_something_behind", len(gcustom.LEFT_BEHIND))
 
 
+# pure by their documentation: a sample of the calls is repeated in a fresh interpreter, in reverse order (stixmon/echo.py)
+ECHO = ['stix2.parsing:parse']
 WORKLOADS = [
     Workload("sco20", wl_sco20, quick=lambda: len(SCO20) * 2, thorough=lambda: len(SCO20) * 600),
     Workload("profiles", wl_profiles, quick=lambda: len(TYPES) * 32, thorough=lambda: len(TYPES) * 6000),
@@ -444,7 +447,7 @@ MANIFEST = {
     "text": ("Thousands (quick) to hundreds of thousands (thorough) of specification-valid objects, generated from a frozen, "
              "hand-audited model rather than from the library's tables, are parsed in strict mode and compared property by "
              "property with what the library writes back; vocabulary entries, reference targets and falsy/boundary values are "
-             "enumerated completely.  Held means: no generated valid object was refused or altered; it is not a proof over all inputs."),
+             "enumerated completely.  Held means: no generated valid object was refused or altered; it is not a proof over all inputs. Echo monitor: a sample of the parse calls (class and sorted serialisation, random UUIDv4s blanked) is repeated in a fresh interpreter in reverse order and must answer alike; 44 refused registrations precede the workload."),
     "note": "trusts the frozen specification model and the independent validator that pre-screens generated inputs; sub-microsecond digits compared after truncation",
-    "technique": "runtime monitoring: model-driven valid-input generation + differential comparison oracle on parse/serialize events",
+    "technique": "runtime monitoring: model-driven valid-input generation + differential comparison oracle on parse/serialize events; echo monitor (pure calls repeated in a fresh interpreter)",
 }
